@@ -139,6 +139,15 @@ CHECKS = {
              "random payloads.",
              note=TB + "Model: coq/model/Exports.v. The tool conventions (T-SCAPY, T-WIRESHARK, T-FIBEX = canmatrix's own importer since the ASAM text is not available offline, T-CSV, T-CANARD) are transcriptions and part of the trusted base; they are printed in the evidence. Generated syntax, identifiers, scaling text are checked on real output only.",
              technique=PT, ref="5/C19"),
+ "C15": dict(text="PARTIAL. Theorems (coq/props/C15.v): all equivalent number renderings (sign, leading/trailing zeros, point/exponent forms such as 1E-3, 1.0e-03, "
+             "0.001) are accepted by the model of Decimal(text)/decode_number and denote the same value; attribute order is irrelevant (Permutation of a "
+             "unique-key association list, and of the KCD signal attribute lists); omitted optional KCD attributes equal their documented defaults; "
+             "COMPU-METHOD rational coefficients with any non-zero denominator give factor n1/d and offset n0/d exactly; base-type encodings determine "
+             "sign/float; statements of one DBC section addressing different objects commute. The search decides the property on the real readers: "
+             "independent writers for DBC, DBF, SYM, KCD, JSON and an AUTOSAR 4 subset render abstract network descriptions under randomly drawn lexical "
+             "choices; the loaded matrix must equal the description, two renderings must load alike, and no load error may be reported.",
+             note=TB + "Model: coq/model/Readers.v. NOT proved: that the readers' regular expressions and lxml/shlex/json walks accept every permitted spelling (searched, not proved). The independent writers and their envelope assumptions (e.g. KCD big-endian offset = MSB in sequential MSB0 numbering) are part of the trusted base.",
+             technique=PT, ref="5/C15"),
 }
 NOT_YET = {}
 props = [json.loads(l) for l in open(os.path.join(V, "properties.jsonl"))]
